@@ -18,6 +18,12 @@ pub struct SStats {
     pub lock_outcomes: BTreeMap<String, u64>,
     pub locks_by_variant: BTreeMap<String, u64>,
     pub soft_locks: u64,
+    /// outcome of the first poll of hand-polled acquisitions
+    pub alock_outcomes: BTreeMap<String, u64>,
+    pub apoll_outcomes: BTreeMap<String, u64>,
+    /// pending acquisitions dropped, by `acancel` or at the end of a program
+    pub cancels_executed: u64,
+    pub cases_with_cancel: u64,
     pub notrunnable: u64,
     pub hangs: u64,
     pub panics: u64,
@@ -55,6 +61,10 @@ impl SStats {
         s.push_str(&format!("  \"lock_outcomes\": {},\n", json_map(&self.lock_outcomes)));
         s.push_str(&format!("  \"locks_by_variant\": {},\n", json_map(&self.locks_by_variant)));
         s.push_str(&format!("  \"soft_locks\": {},\n", self.soft_locks));
+        s.push_str(&format!("  \"alock_outcomes\": {},\n", json_map(&self.alock_outcomes)));
+        s.push_str(&format!("  \"apoll_outcomes\": {},\n", json_map(&self.apoll_outcomes)));
+        s.push_str(&format!("  \"cancels_executed\": {},\n", self.cancels_executed));
+        s.push_str(&format!("  \"cases_with_cancel\": {},\n", self.cases_with_cancel));
         s.push_str(&format!("  \"notrunnable\": {},\n", self.notrunnable));
         s.push_str(&format!("  \"hangs\": {},\n", self.hangs));
         s.push_str(&format!("  \"panics\": {},\n", self.panics));
@@ -84,6 +94,9 @@ pub struct SRun<'a> {
     case_steps: u64,
     last_stepped: Option<usize>,
     saw_blocked: bool,
+    saw_cancel: bool,
+    /// per thread and slot: the slot belongs to an `alock`
+    alock_slots: Vec<Vec<bool>>,
     /// hang or a `bad` step: the case cannot go on
     dead: bool,
 }
@@ -107,6 +120,8 @@ impl<'a> SRun<'a> {
             case_steps: 0,
             last_stepped: None,
             saw_blocked: false,
+            saw_cancel: false,
+            alock_slots: Vec::new(),
             dead: false,
         }
     }
@@ -146,10 +161,26 @@ impl<'a> SRun<'a> {
                 st.hangs += 1;
                 self.dead = true;
             }
+            st.cancels_executed += info.step.cancels;
+            if info.step.cancels > 0 {
+                self.saw_cancel = true;
+            }
             for e in &info.step.events {
-                let kind = if e.starts_with("lock") {
-                    bump(&mut st.lock_outcomes, e.split('=').nth(1).unwrap_or("?"));
-                    "lock"
+                let kind = if let Some(rest) = e.strip_prefix("lock") {
+                    let mut it = rest.split('=');
+                    let slot: usize = it.next().and_then(|x| x.parse().ok()).unwrap_or(usize::MAX);
+                    let outcome = it.next().unwrap_or("?");
+                    let alock = self.alock_slots.get(*t).and_then(|v| v.get(slot)).copied().unwrap_or(false);
+                    if alock {
+                        bump(&mut st.alock_outcomes, outcome);
+                        "alock"
+                    } else {
+                        bump(&mut st.lock_outcomes, outcome);
+                        "lock"
+                    }
+                } else if e.starts_with("poll") {
+                    bump(&mut st.apoll_outcomes, e.split('=').nth(1).unwrap_or("?"));
+                    "apoll"
                 } else if e.starts_with("op") {
                     "op"
                 } else if e.starts_with("count=") {
@@ -179,7 +210,20 @@ impl<'a> SRun<'a> {
         self.case_steps = 0;
         self.last_stepped = None;
         self.saw_blocked = false;
+        self.saw_cancel = false;
         self.dead = false;
+        self.alock_slots = progs
+            .iter()
+            .map(|p| {
+                p.iter()
+                    .filter_map(|s| match s {
+                        Stmt::Lock { .. } => Some(false),
+                        Stmt::ALock { .. } => Some(true),
+                        _ => None,
+                    })
+                    .collect()
+            })
+            .collect();
         self.emit(Req::SInit(kind, progs.len()))?;
         for (t, p) in progs.iter().enumerate() {
             self.emit(Req::Prog(t, p.clone()))?;
@@ -200,6 +244,9 @@ impl<'a> SRun<'a> {
         *self.stats.steps_per_case_histogram.entry(self.case_steps).or_insert(0) += 1;
         if self.saw_blocked {
             self.stats.cases_with_blocked_thread += 1;
+        }
+        if self.saw_cancel {
+            self.stats.cases_with_cancel += 1;
         }
     }
 
@@ -300,6 +347,8 @@ pub struct ProgCfg {
     pub max_stmts: u64,
     pub max_locks: u64,
     pub soft_pct: u64,
+    /// percentage of acquisitions that are hand-polled (`alock`)
+    pub alock_pct: u64,
 }
 
 fn gen_lock(rng: &mut Rng, c: &ProgCfg, k: u32) -> Stmt {
@@ -331,16 +380,51 @@ fn gen_op(rng: &mut Rng, slot: usize) -> Stmt {
     Stmt::Op(slot, op)
 }
 
-/// A program following one of two deadlock-free disciplines: at most one guard at a time, or keys
-/// acquired in strictly ascending order (released in any order). It never locks a key it may hold.
+/// An acquisition statement for key `k`: `lock`, or with probability `alock_pct` a hand-polled `alock`
+fn gen_acquire(rng: &mut Rng, c: &ProgCfg, k: u32) -> (Stmt, bool) {
+    if rng.pct(c.alock_pct) {
+        let owned = c.kind != Kind::Pool && rng.pct(50);
+        (Stmt::ALock { owned, k }, true)
+    } else {
+        (gen_lock(rng, c, k), false)
+    }
+}
+
+/// something to do with a held slot other than releasing it
+fn gen_use(rng: &mut Rng, c: &ProgCfg, slot: usize, alock: bool, p: &mut Vec<Stmt>) {
+    let pool = c.kind == Kind::Pool;
+    if alock && rng.pct(if pool { 80 } else { 50 }) {
+        if rng.pct(60) {
+            // a statement with a park point, so that the holder can release the key before the poll
+            p.push(if rng.pct(50) { Stmt::Count } else { Stmt::Keys });
+        }
+        p.push(Stmt::APoll(slot));
+    } else if pool {
+        p.push(if rng.pct(50) { Stmt::Count } else { Stmt::Keys });
+    } else {
+        p.push(gen_op(rng, slot));
+    }
+}
+
+/// A program following a deadlock-free discipline:
+/// * at most one slot in use at a time (guard or pending acquisition), or
+/// * keys acquired in strictly ascending order (`lock` and `alock` alike), released in any order, or
+/// * only hand-polled acquisitions (`alock`) on distinct keys: such a thread never waits.
+/// It never acquires a key it may still hold or have a pending acquisition for.
 pub fn gen_program(rng: &mut Rng, c: &ProgCfg) -> Vec<Stmt> {
     let len = rng.range(1, c.max_stmts.max(1)) as usize;
-    let pool = c.kind == Kind::Pool;
     let mut p: Vec<Stmt> = Vec::new();
     let mut nlocks = 0usize;
     let misc = |rng: &mut Rng| if rng.pct(50) { Stmt::Count } else { Stmt::Keys };
-    if rng.pct(55) || c.nkeys == 1 {
-        // one guard at a time
+    let discipline = if c.alock_pct > 0 && rng.pct(c.alock_pct / 2) {
+        2
+    } else if rng.pct(55) || c.nkeys == 1 {
+        0
+    } else {
+        1
+    };
+    if discipline == 0 {
+        // one slot at a time
         while p.len() < len && (nlocks as u64) < c.max_locks {
             if rng.pct(8) {
                 p.push(misc(rng));
@@ -348,54 +432,82 @@ pub fn gen_program(rng: &mut Rng, c: &ProgCfg) -> Vec<Stmt> {
             }
             let slot = nlocks;
             let k = rng.below(c.nkeys as u64) as u32;
-            p.push(gen_lock(rng, c, k));
+            let (st, alock) = gen_acquire(rng, c, k);
+            p.push(st);
             nlocks += 1;
-            let nops = rng.below(3);
-            for _ in 0..nops {
+            let nuses = rng.below(3);
+            for _ in 0..nuses {
                 if p.len() >= len {
                     break;
                 }
-                if pool || rng.pct(10) {
+                if rng.pct(10) {
                     p.push(misc(rng));
                 } else {
-                    p.push(gen_op(rng, slot));
+                    gen_use(rng, c, slot, alock, &mut p);
                 }
             }
-            // released before the next lock; at the end the implicit drop may do it
+            // released before the next acquisition; at the end the implicit release may do it
             if p.len() < len || rng.pct(50) {
-                p.push(Stmt::Drop(slot));
+                if alock {
+                    // guard or still pending: one of the two is skipped
+                    if rng.pct(50) {
+                        p.push(Stmt::ACancel(slot));
+                        p.push(Stmt::Drop(slot));
+                    } else {
+                        p.push(Stmt::Drop(slot));
+                        p.push(Stmt::ACancel(slot));
+                    }
+                } else {
+                    p.push(Stmt::Drop(slot));
+                }
             }
         }
     } else {
-        // ascending keys
+        // ascending keys, or (only alocks) distinct keys in any order
         let mut keys: Vec<u32> = (0..c.nkeys).filter(|_| rng.pct(70)).collect();
         if keys.is_empty() {
             keys.push(rng.below(c.nkeys as u64) as u32);
         }
-        let mut held: Vec<usize> = Vec::new();
+        if discipline == 2 {
+            rng.shuffle(&mut keys);
+        }
+        let mut held: Vec<(usize, bool)> = Vec::new();
         let mut next_key = 0usize;
         while p.len() < len {
             let can_lock = next_key < keys.len() && (nlocks as u64) < c.max_locks;
-            let choice = rng.weighted(&[if can_lock { 40 } else { 0 }, if held.is_empty() { 0 } else { 30 }, if held.is_empty() { 0 } else { 20 }, 6]);
-            match choice {
+            let h = if held.is_empty() { 0 } else { 1 };
+            match rng.weighted(&[if can_lock { 40 } else { 0 }, 30 * h, 20 * h, 6]) {
                 0 => {
-                    p.push(gen_lock(rng, c, keys[next_key]));
+                    let (st, alock) = if discipline == 2 {
+                        let owned = c.kind != Kind::Pool && rng.pct(50);
+                        (Stmt::ALock { owned, k: keys[next_key] }, true)
+                    } else {
+                        gen_acquire(rng, c, keys[next_key])
+                    };
+                    p.push(st);
                     next_key += 1;
-                    held.push(nlocks);
+                    held.push((nlocks, alock));
                     nlocks += 1;
                 }
                 1 => {
-                    let slot = rng.pick(&held);
-                    if pool {
-                        p.push(misc(rng));
-                    } else {
-                        p.push(gen_op(rng, slot));
-                    }
+                    let (slot, alock) = rng.pick(&held);
+                    gen_use(rng, c, slot, alock, &mut p);
                 }
                 2 => {
                     let i = rng.below(held.len() as u64) as usize;
-                    let slot = held.remove(i);
-                    p.push(Stmt::Drop(slot));
+                    let (slot, alock) = held[i];
+                    if alock && rng.pct(60) {
+                        // may be skipped (the acquisition may have completed): the slot stays in the list then
+                        p.push(Stmt::ACancel(slot));
+                        if rng.pct(50) {
+                            held.remove(i);
+                        }
+                    } else {
+                        p.push(Stmt::Drop(slot));
+                        if !alock || rng.pct(50) {
+                            held.remove(i);
+                        }
+                    }
                 }
                 _ => p.push(misc(rng)),
             }
